@@ -168,4 +168,191 @@ theorem built_fio_sorted (w : World) (name : String) (id : Nat) (items : List It
   rw [this]
   exact h.2 ih hm
 
+/-! ### every function table entry points at an existing runtime slot (clause "indices in range" of wfFind) -/
+
+/-- `function_table[k].runtime_index` is a slot of the runtime table under construction -/
+def RidxOK (s : BState) : Prop := ∀ c ∈ s.cfuncs, c.rindex < s.slots.length
+
+theorem ridxOK_of_same_cfuncs (s s' : BState) (h : RidxOK s) (hc : s'.cfuncs = s.cfuncs)
+    (hl : s.slots.length ≤ s'.slots.length) : RidxOK s' := by
+  intro c hm
+  rw [hc] at hm
+  exact Nat.lt_of_lt_of_le (h c hm) hl
+
+theorem mem_modify_cf (l : List CFunc) (i : Nat) (f : CFunc → CFunc) (c : CFunc) (h : c ∈ l.modify i f) :
+    c ∈ l ∨ ∃ c0 ∈ l, c = f c0 := by
+  induction l generalizing i with
+  | nil => simp at h
+  | cons a rest ih =>
+    cases i with
+    | zero =>
+      simp only [List.modify_zero_cons, List.mem_cons] at h
+      rcases h with h | h
+      · exact Or.inr ⟨a, by simp, h⟩
+      · exact Or.inl (by simp [h])
+    | succ j =>
+      simp only [List.modify_succ_cons, List.mem_cons] at h
+      rcases h with h | h
+      · exact Or.inl (by simp [h])
+      · rcases ih j h with h | ⟨c0, h0, h1⟩
+        · exact Or.inl (by simp [h])
+        · exact Or.inr ⟨c0, by simp [h0], h1⟩
+
+theorem cfuncs_copyFunction (s : BState) (a b c : Nat) (n : NameKey) : (copyFunction s a b c n).cfuncs = s.cfuncs := rfl
+
+theorem ridxOK_overloadFunction (s : BState) (a b c d : Nat) (h : RidxOK s) : RidxOK (overloadFunction s a b c d) := by
+  unfold overloadFunction
+  cases hs : s.slots[c]? with
+  | none => exact h
+  | some old =>
+    simp only
+    -- cfuncs only change by marking one entry removed; slots only grow
+    intro cf hm
+    have hlen : s.slots.length ≤ (bumpCount (latestWins (addAlias s b c) old a b c d) a c).slots.length := by
+      have := len_overloadFunction s a b c d
+      unfold overloadFunction at this
+      simp only [hs] at this
+      exact this
+    have hcf : cf ∈ s.cfuncs ∨ ∃ c0 ∈ s.cfuncs, cf = { c0 with removed := true } := by
+      simp only [bumpCount, latestWins, addAlias, modifySlot] at hm
+      split at hm <;> split at hm <;> (try split at hm) <;>
+        first
+          | exact Or.inl hm
+          | exact mem_modify_cf _ _ _ _ hm
+    rcases hcf with hcf | ⟨c0, h0, h1⟩
+    · exact Nat.lt_of_lt_of_le (h cf hcf) hlen
+    · subst h1; exact Nat.lt_of_lt_of_le (h c0 h0) hlen
+
+theorem ridxOK_defineNewFunction (s : BState) (n : NameKey) (ns : String) (a b : Nat) (h : RidxOK s)
+    (hid : ∀ rn, s.ident n = some rn → rn < s.slots.length) : RidxOK (defineNewFunction s n ns a b).1 := by
+  unfold defineNewFunction
+  simp only
+  cases hi : s.ident n with
+  | none =>
+    simp only
+    intro cf hm
+    simp only [List.mem_append, List.mem_singleton] at hm
+    simp only [List.length_append, List.length_singleton]
+    rcases hm with hm | hm
+    · have := h cf hm; omega
+    · subst hm; simp
+  | some rn =>
+    have hrn := hid rn hi
+    simp only
+    cases hsl : s.slots[rn]? with
+    | none => exact h
+    | some sl =>
+      simp only
+      split
+      · exact h
+      · split
+        · exact h
+        · split
+          · -- the compiler function of a prototype of this level is reused
+            intro cf hm
+            simp only [modifySlot, List.length_modify] at hm ⊢
+            rcases mem_modify_cf _ _ _ _ hm with hm | ⟨c0, _, h1⟩
+            · exact h cf hm
+            · subst h1; exact hrn
+          · intro cf hm
+            simp only [modifySlot, List.length_modify] at hm ⊢
+            rcases mem_modify_cf _ _ _ _ hm with hm | ⟨c0, _, h1⟩
+            · simp only [List.mem_append, List.mem_singleton] at hm
+              rcases hm with hm | hm
+              · exact h cf hm
+              · subst hm; exact hrn
+            · subst h1; exact hrn
+
+theorem ident_lt (s : BState) (h : AInv s) (n : NameKey) (rn : Nat) (hi : s.ident n = some rn) : rn < s.slots.length := by
+  unfold BState.ident at hi
+  cases hf : s.idents.find? (·.1 == n) with
+  | none => simp [hf] at hi
+  | some x =>
+    simp only [hf, Option.map_some, Option.some.injEq] at hi
+    have hm : x ∈ s.idents := List.mem_of_find?_eq_some hf
+    subst hi
+    exact h.identLt x.1 x.2 hm
+
+theorem cfuncs_copyStep_ridx (w : World) (Q : Program) (m q : Nat) (s0 : BState) (i : Nat) (h : RidxOK s0) :
+    RidxOK (copyStep w q Q m s0 i) := by
+  unfold copyStep
+  cases chase w w.fuel q i 0 0 with
+  | none => exact h
+  | some fr =>
+    simp only
+    cases (w.progs[fr.prog]?.bind (·.ft[fr.fidx]?)) with
+    | none => exact h
+    | some fe =>
+      simp only
+      cases s0.ident fe.name with
+      | none => exact ridxOK_of_same_cfuncs s0 _ h rfl (len_copyFunction s0 _ _ _ _)
+      | some num => exact ridxOK_overloadFunction s0 _ _ _ _ h
+
+theorem ridxOK_copyFunctions (w : World) (Q : Program) (m q : Nat) (l : List Nat) :
+    ∀ s0 : BState, RidxOK s0 → RidxOK (l.foldl (copyStep w q Q m) s0) := by
+  induction l with
+  | nil => intro s0 h; exact h
+  | cons i rest ih =>
+    intro s0 h
+    simp only [List.foldl_cons]
+    exact ih _ (cfuncs_copyStep_ridx w Q m q s0 i h)
+
+theorem ridxOK_doItem (w : World) (s : BState) (it : Item) (ha : AInv s) (hm : it.modsOK) (h : RidxOK s) :
+    RidxOK (doItem w s it) := by
+  cases it with
+  | var m => exact ridxOK_of_same_cfuncs s _ h rfl (Nat.le_refl _)
+  | proto m name nameStr =>
+    exact ridxOK_defineNewFunction s name nameStr _ m h (ident_lt s ha name)
+  | inh m q =>
+    show RidxOK (doInherit w s m q)
+    unfold doInherit
+    cases w.progs[q]? with
+    | none => exact h
+    | some Q =>
+      simp only
+      exact ridxOK_copyFunctions w Q m q _ _ (ridxOK_of_same_cfuncs s _ h rfl (Nat.le_refl _))
+  | defn m name nameStr calls =>
+    have a1 := ainv_defineNewFunction s name nameStr (nameUndefined ||| namePrototype) m ha hm (Or.inl rfl)
+    have r1 := ridxOK_defineNewFunction s name nameStr (nameUndefined ||| namePrototype) m h (ident_lt s ha name)
+    have r2 := ridxOK_defineNewFunction _ name nameStr 0 m r1 (ident_lt _ a1 name)
+    unfold doItem
+    simp only
+    split
+    · -- the compiled call operands are stored into the compiler function: its runtime index is untouched
+      intro cf hmem
+      simp only at hmem
+      rcases mem_modify_cf _ _ _ _ hmem with hmem | ⟨c0, h0, h1⟩
+      · exact r2 cf hmem
+      · subst h1; exact r2 c0 h0
+    · exact r2
+
+/-- **built_indices_in_range** — clause "runtime indices in range" of `wfFind`, for ALL programs: in every program the
+    construction model builds (any world, any source items with well-formed modifiers) every function table entry
+    points at an existing runtime slot -/
+theorem built_indices_in_range (w : World) (name : String) (id : Nat) (items : List Item)
+    (hm : ∀ it ∈ items, it.modsOK) :
+    ∀ e ∈ (buildProgram w name id items).ft, e.rindex < (buildProgram w name id items).flags.length := by
+  have key : ∀ (l : List Item), (∀ it ∈ l, it.modsOK) → ∀ s, AInv s → RidxOK s →
+      AInv (l.foldl (doItem w) s) ∧ RidxOK (l.foldl (doItem w) s) := by
+    intro l
+    induction l with
+    | nil => intro _ s a r; exact ⟨a, r⟩
+    | cons it rest ih =>
+      intro hl s a r
+      exact ih (fun x hx => hl x (List.mem_cons_of_mem _ hx)) _
+        (ainv_doItem w s it a (hl it List.mem_cons_self)) (ridxOK_doItem w s it a (hl it List.mem_cons_self) r)
+  have h := (key items hm {} ainv_empty (by intro c hc; simp at hc)).2
+  intro e he
+  have hlen : (buildProgram w name id items).flags.length = (items.foldl (doItem w) {}).slots.length := by
+    simp [buildProgram, finish, epilogSlots_length]
+  rw [hlen]
+  simp only [buildProgram, finish, List.mem_filterMap] at he
+  obtain ⟨i, _, hi⟩ := he
+  cases hc : (items.foldl (doItem w) {}).cfuncs[i]? with
+  | none => simp [hc] at hi
+  | some c =>
+    simp only [hc, Option.map_some, Option.some.injEq] at hi
+    subst hi
+    exact h c (List.mem_of_getElem? hc)
+
 end NV.C07
